@@ -121,7 +121,7 @@ static size_t derTDec(u32* tag, const octet der[], size_t count)
 	{
 		// короткий код? лишний октет с нулем?
 		if (count < 2 || (der[1] & 127) == 0)
-			return FALSE;
+			return SIZE_MAX;
 		for (t = 0; t_count < count;)
 		{
 			t <<= 8, t |= der[t_count] & 127;
